@@ -210,15 +210,15 @@ theorem lenAt (hs : env.Sane) : ∀ n, LenAt env n := by
       · simp only [readFields]; len_tac
       · rcases ts with _ | ⟨t, ts⟩
         · simp only [readFields]; len_tac
-        · cases t <;> simp only [readFields, Outcome.bind_eq, Outcome.pure_eq] <;> len_tac
+        · cases t <;> simp only [readFields, Outcome.bind_eq] <;> len_tac
     · intro item bs acc L hL
       simp only [readArrayBlocks, Outcome.bind_eq, Outcome.pure_eq]; len_tac
     · intro item k bs acc L hL
-      cases k <;> simp only [readItems, Outcome.bind_eq, Outcome.pure_eq] <;> len_tac
+      cases k <;> simp only [readItems, Outcome.bind_eq] <;> len_tac
     · intro val bs ks vs L hL
       simp only [readMapBlocks, Outcome.bind_eq, Outcome.pure_eq]; len_tac
     · intro val k bs ks vs L hL
-      cases k <;> simp only [readMapItems, Outcome.bind_eq, Outcome.pure_eq] <;> len_tac
+      cases k <;> simp only [readMapItems, Outcome.bind_eq] <;> len_tac
     · intro c bs L hL
       cases c <;> simp only [skip, Outcome.bind_eq, Outcome.pure_eq]
       case custom cid =>
@@ -227,7 +227,7 @@ theorem lenAt (hs : env.Sane) : ∀ n, LenAt env n := by
         · exact LenLe.err
       all_goals len_tac
     · intro cs bs L hL
-      cases cs <;> simp only [skipFields, Outcome.bind_eq, Outcome.pure_eq] <;> len_tac
+      cases cs <;> simp only [skipFields, Outcome.bind_eq] <;> len_tac
     · intro keyed item bs L hL
       simp only [skipBlocks, Outcome.bind_eq, Outcome.pure_eq]; len_tac
     · intro keyed item k bs L hL
@@ -554,7 +554,7 @@ theorem halts_record (z : List GoVal) {cs : List Codec} (h : ∀ c ∈ cs, Halts
 
 theorem halts_union {cs : List Codec} (h : ∀ c ∈ cs, Halts env c) : Halts env (.union cs) := by
   constructor
-  · intro bs dst; apply Ev.succ; simp only [read, Outcome.bind_eq, Outcome.pure_eq]
+  · intro bs dst; apply Ev.succ; simp only [read, Outcome.bind_eq]
     refine Ev.bind (Ev.const (rdVarint_ne_fuel _)) (fun _ _ => ?_)
     split
     · ev_tac
@@ -562,7 +562,7 @@ theorem halts_union {cs : List Codec} (h : ∀ c ∈ cs, Halts env c) : Halts en
       · rename_i c' hc'
         exact (h c' (List.mem_of_getElem? hc')).read _ _
       · ev_tac
-  · intro bs; apply Ev.succ; simp only [skip, Outcome.bind_eq, Outcome.pure_eq]
+  · intro bs; apply Ev.succ; simp only [skip, Outcome.bind_eq]
     refine Ev.bind (Ev.const (rdVarint_ne_fuel _)) (fun _ _ => ?_)
     split
     · ev_tac
